@@ -39,6 +39,16 @@ CHECKS = {
        "draws per row against N(a, A) (KS / mean / covariance / lag-1, p<1e-9). Defects F1-F5 recognised by exact signatures.",
   design_ref="DESIGN.md 4.2, 4.3, 5/C03, 6", note=KERNEL_NOTE + " numpy's multivariate_normal is trusted to draw from the (mean, cov) it is given.",
   technique="property-based testing: captured-argument differential against closed form + statistical goodness-of-fit"),
+ "C05": dict(
+  category="exploration",
+  text="Rule-based state machine (Hypothesis stateful): one problem, one probe library with pairwise distinct likelihoods and "
+       "extreme rows, one persistent kernel helper; rules = likelihood calls over subsets/permutations through every execution path "
+       "and batching with a fresh or the persistent helper, equal-seed rejection sampling across paths and a MultiPool, direct "
+       "posterior draws on extreme rows, dill round trip, MultiPool likelihoods. After every step the values must be bit-identical "
+       "to those of a fresh helper and in input order; accepted sets must agree across paths.",
+  design_ref="DESIGN.md 5/C05", note="The harness does not own the OS schedule of MultiPool workers; workers share no state, so order-independence of results is what is checked. "
+       "Bit-equality across paths is demanded with the library stored in internal units (conversion factors are exactly 1).",
+  technique="stateful property testing (history/path metamorphic relation, bit-equality oracle)"),
  "C06": dict(
   category="exploration",
   text="Scripted libraries whose ln_prior encodes the row number; all option combinations of rejection_sample and "
@@ -64,6 +74,15 @@ CHECKS = {
        "that labels matter. The label defect F5 (ids not re-sorted) is recognised exactly and reported as a known finding.",
   design_ref="DESIGN.md 5/C08, 6", note=KERNEL_NOTE,
   technique="property-based testing with tagged observations (provenance oracle) + closed-form differential"),
+ "C10": dict(
+  category="exploration",
+  text="Generated call histories (nine entry points incl. prior samples by count, iterative sampling, read_batch) executed twice "
+       "with fresh objects and equal seeds - the second time with reseeded global generators and in a tenth of the cases on a "
+       "MultiPool: bit-identical outputs, byte-identical global numpy/random state around every call, and no repeated "
+       "linear-parameter vector between batches (library rows are duplicated on purpose so that equal streams would show) or "
+       "between successive calls. Led to one fix: commit (prior samples by count ignored the generator).",
+  design_ref="DESIGN.md 5/C10, 6", note="pymc's pm.draw(random_seed=Generator) is trusted to confine itself to the generator it is given (checked only through the global-state sentinels).",
+  technique="property-based testing over call histories (determinism / isolation oracles)"),
  "C12": dict(
   category="exploration",
   text="Rule-based state machine (Hypothesis stateful) over a scratch directory: write / refused write / overwrite / same-schema "
@@ -74,6 +93,15 @@ CHECKS = {
   design_ref="DESIGN.md 5/C12, 6", note="Trusts h5py/PyTables/astropy.io for the byte-level format; FITS stores t_ref as one float64 BMJD (tolerance 1e-9 d). "
        "Reading through a PyTables Group is documented as unsupported (variable-length strings) and not exercised.",
   technique="stateful (model-based) property testing against an in-memory reference model"),
+ "C13": dict(
+  category="fault_enumeration",
+  text="For each generated configuration (API x source x options x pool) a dry run counts the invocations of 13 instrumented "
+       "internal call sites and the task start indices; every k-th invocation of every site and every worker task is then made to "
+       "fail once (four exception types incl. a BaseException subclass). Oracle: exception reaches the caller, no HDF5 file left in "
+       "the private TMPDIR, user file hash unchanged, next calls on the same object reproduce the baseline.",
+  design_ref="DESIGN.md 5/C13", note="Faults are injected at Python call boundaries via mock.patch on module attributes, a Generator subclass, a pool wrapper and a "
+       "helper proxy (no repository edits). Interpreter crashes / SIGKILL are not simulated. Under MultiPool, worker-side faults are keyed by task start index.",
+  technique="systematic fault injection (complete enumeration of k-th-call faults per generated configuration)"),
  "C14": dict(
   category="exploration",
   text="Generated libraries/profiles/requests/budgets/growth parameters through the real iterative_rejection_sample (3 paths) with "
